@@ -281,7 +281,10 @@ let rknown_class (prog : rstmt list) : string =
      | SB _ | SArr _ -> ());
     m := rexec s !m) prog;
   let m = !m in
-  if !cls <> "" then "BAD:" ^ !cls ^ " "
+  (* a predicted PANIC (a posting method reading min()/max() of an emptied domain) is its own class, whatever else the program
+     contains (it used to be shadowed by mod_zero_div, which is scope now) *)
+  if m.rpanic then "BAD:empty_domain_panic "
+  else if !cls <> "" then "BAD:" ^ !cls ^ " "
   else begin
     let base = List.filter_map (function SB s -> Some s | SCall _ | SArr _ -> None) prog in
     let cs = posted base in
